@@ -1,7 +1,10 @@
 // C05 conformance harness: interprets a script of variant operations (ndjson on stdin, one
 // {"op":"Begin","c":<call>,"a":{..},"fuse":n} line per public call) on two real
-// xtl::variant<int, NT, TM, TM2> objects kept in aligned storage (construction and destruction
-// are explicit calls) and writes a bracketed trace:
+// xtl::variant objects kept in aligned storage (construction and destruction are explicit
+// calls).  The alternative set is chosen at compile time (-DC05_SET=n, see VariantLifetime.tla):
+//   1 "mixed" <int, NT, TM, TM2>    2 "triv" <int, Tv1, Tv2, Tv3> (all trivially copyable)
+//   3 "td"    <TD, NT, TM, int>     (alternative 0: throwing default constructor)
+// It writes a bracketed trace:
 //   Begin (echo) ; element events ECtor/EDtor/EAssign/EThrow emitted by the payload types ; End
 // with the call's result and the full observable projection of both variants.
 // A global countdown fuse makes the n-th throwing-capable element operation of the call throw.
@@ -17,6 +20,24 @@
 #include <type_traits>
 #include <utility>
 #include <new>
+#include <functional>
+#include <csignal>
+#include <sys/time.h>
+#include <unistd.h>
+#if defined(__SANITIZE_ADDRESS__)
+#define C05_ASAN 1
+#elif defined(__has_feature)
+#if __has_feature(address_sanitizer)
+#define C05_ASAN 1
+#endif
+#endif
+#ifdef C05_ASAN
+#include <sanitizer/common_interface_defs.h>
+#endif
+
+#ifndef C05_SET
+#define C05_SET 1
+#endif
 
 namespace
 {
@@ -79,7 +100,9 @@ namespace
             EMIT("{\"op\":\"ECtor\",\"id\":%d,\"alt\":%d,\"kind\":\"%s\",\"src\":%d,\"home\":%d,\"val\":%d}\n",
                         id, A, kind, src, home_of(this), v);
         }
+        P() { may_throw("ctor", A, "value"); v = 0; born("value", 0); }                      // default construction (alternative 0 of set "td")
         P(Mk<A> m) { may_throw("ctor", A, "value"); v = m.v; born("value", 0); }
+        P(int a, Mk<A> m) { may_throw("ctor", A, "value"); v = a + m.v; born("value", 0); }   // several constructor arguments
         P(std::initializer_list<int> il, int add) { may_throw("ctor", A, "value"); v = *il.begin() + add; born("value", 0); }
         P(const P& o) { may_throw("ctor", A, "copy"); v = o.v; born("copy", id_at(&o)); }
         P(P&& o) noexcept(NTM)
@@ -122,27 +145,69 @@ namespace
         friend bool operator>=(const P& a, const P& b) { return a.v >= b.v; }
     };
 
-    using T0 = int;
-    using T1 = P<1, true>;    // NoThrowMove
-    using T2 = P<2, false>;   // ThrowMove
-    using T3 = P<3, false>;   // second ThrowMove alternative (swap without rollback)
+    // Trivial alternative A: trivially copyable and destructible, no lifetime events, nothing throws.
+    template <int A>
+    struct Tv
+    {
+        int v;
+        Tv() = default;
+        Tv(Mk<A> m) noexcept : v(m.v) {}
+        friend bool operator==(const Tv& a, const Tv& b) { return a.v == b.v; }
+        friend bool operator!=(const Tv& a, const Tv& b) { return a.v != b.v; }
+        friend bool operator<(const Tv& a, const Tv& b) { return a.v < b.v; }
+        friend bool operator>(const Tv& a, const Tv& b) { return a.v > b.v; }
+        friend bool operator<=(const Tv& a, const Tv& b) { return a.v <= b.v; }
+        friend bool operator>=(const Tv& a, const Tv& b) { return a.v >= b.v; }
+    };
+
+}
+namespace std
+{
+    template <int A, bool N> struct hash<P<A, N>> { size_t operator()(const P<A, N>& p) const { return hash<int>{}(p.v); } };
+    template <int A> struct hash<Tv<A>> { size_t operator()(const Tv<A>& t) const { return hash<int>{}(t.v); } };
+}
+namespace
+{
+    template <int A> struct alt_type;
+#if C05_SET == 1
+    template <int A> struct alt_type { using type = P<A, A == 1>; using arg = Mk<A>; static const bool tracked = true; };
+    template <> struct alt_type<0> { using type = int; using arg = int; static const bool tracked = false; };
+#elif C05_SET == 2
+    template <int A> struct alt_type { using type = Tv<A>; using arg = Mk<A>; static const bool tracked = false; };
+    template <> struct alt_type<0> { using type = int; using arg = int; static const bool tracked = false; };
+#elif C05_SET == 3
+    template <int A> struct alt_type { using type = P<A, A == 1>; using arg = Mk<A>; static const bool tracked = true; };
+    template <> struct alt_type<3> { using type = int; using arg = int; static const bool tracked = false; };
+#else
+#error "C05_SET must be 1, 2 or 3"
+#endif
+    using T0 = alt_type<0>::type;
+    using T1 = alt_type<1>::type;
+    using T2 = alt_type<2>::type;
+    using T3 = alt_type<3>::type;
     using V = xtl::variant<T0, T1, T2, T3>;
     static_assert(sizeof(V) <= sizeof(store_t), "storage too small");
     static_assert(alignof(V) <= alignof(store_t), "storage alignment");
-    static_assert(std::is_nothrow_move_constructible<T1>::value && !std::is_nothrow_move_constructible<T2>::value, "payload traits");
-    static_assert(!std::is_nothrow_constructible<T1, Mk<1>>::value && !std::is_nothrow_copy_constructible<T1>::value, "payload traits");
-
-    template <int A> struct alt_type { using type = P<A, A == 1>; using arg = Mk<A>; };
-    template <> struct alt_type<0> { using type = int; using arg = int; };
+    // facts about the fixtures themselves (not about xtl): the constants TrackedAlts / NTMAlts of the trace cfg
+    static_assert(std::is_nothrow_move_constructible<P<1, true>>::value && !std::is_nothrow_move_constructible<P<2, false>>::value, "payload traits");
+    static_assert(!std::is_nothrow_constructible<P<1, true>, Mk<1>>::value && !std::is_nothrow_copy_constructible<P<1, true>>::value, "payload traits");
+    static_assert(std::is_trivially_copyable<Tv<1>>::value && std::is_trivially_destructible<Tv<1>>::value
+                  && std::is_nothrow_constructible<Tv<1>, Mk<1>>::value, "trivial alternative");
     template <int A> typename alt_type<A>::arg make_arg(int val) { return typename alt_type<A>::arg{val}; }
+    template <int A> using tracked_c = std::integral_constant<bool, alt_type<A>::tracked>;
 
     V& vr(int k) { return *reinterpret_cast<V*>(g_store[k].b); }
 
     // ------------------------------------------------------------------ projection
     int val_of(const int& x) { return x; }
+    template <int A> int val_of(const Tv<A>& t) { return t.v; }
     template <int A, bool N> int val_of(const P<A, N>& p) { return id_at(&p) > 0 ? p.v : -99; }
     int oid_of(const int&) { return 0; }
+    template <int A> int oid_of(const Tv<A>&) { return 0; }
     template <int A, bool N> int oid_of(const P<A, N>& p) { return id_at(&p); }
+    const int& int_in(const int& x) { return x; }
+    template <int A> const int& int_in(const Tv<A>& t) { return t.v; }
+    template <int A, bool N> const int& int_in(const P<A, N>& p) { return p.v; }
 
     // answers of a 4-way observer family as a bit mask: bit I set iff the observer says "alternative I"
     long long mask(std::initializer_list<bool> b)
@@ -196,7 +261,10 @@ namespace
         ~Arm() { g_armed = false; }
     };
 
+    // the script itself is malformed (never a consequence of what the library under test does)
     [[noreturn]] void bad_script(const char* m) { std::fprintf(stderr, "script: %s\n", m); std::exit(3); }
+    // something the library did that has no place in the result record: reported as the call's outcome
+    struct Oddity { const char* what; };
 
     template <class F> auto with_alt(int alt, F&& f)
     {
@@ -213,7 +281,7 @@ namespace
     // Calls f with the argument object of kind ak for alternative A: "value" -> int / Mk<A> ;
     // "copy" -> const T& ; "move" -> T&&.  The source payload object is built (and destroyed) by the
     // harness inside the bracket with the fuse disarmed; only the call under test runs armed.
-    template <int A, class F> void with_source(const std::string& ak, int val, F&& f)
+    template <int A, class F> void with_source_t(const std::string& ak, int val, F&& f, std::true_type)
     {
         using T = typename alt_type<A>::type;
         if (ak == "value") { auto a = make_arg<A>(val); f(std::move(a)); }
@@ -221,107 +289,272 @@ namespace
         else if (ak == "move") { T src(make_arg<A>(val)); f(std::move(src)); }
         else bad_script("ak");
     }
-
-
-    // initializer_list overloads of the in-place constructors and of emplace (tracked alternatives only)
-    inline void ctor_ilist(int, const std::string&, int, int, std::integral_constant<int, 0>) { bad_script("ilist on alt 0"); }
-    template <int J> void ctor_ilist(int k, const std::string& form, int val, int fuse, std::integral_constant<int, J>)
+    template <int A, class F> void with_source_t(const std::string& ak, int val, F&& f, std::false_type)
     {
-        Arm arm(fuse);
-        if (form == "index") new (g_store[k].b) V(mpark::in_place_index_t<J>{}, {val - 1, 7}, 1);
-        else if (form == "type") new (g_store[k].b) V(mpark::in_place_type_t<typename alt_type<J>::type>{}, {val - 1, 7}, 1);
-        else bad_script("form");
+        if (ak == "value") { auto a = make_arg<A>(val); f(std::move(a)); }
+        else bad_script("ak: an untracked alternative takes its value only");
     }
-    inline std::string emplace_ilist(int, const std::string&, int, int, std::integral_constant<int, 0>) { bad_script("ilist on alt 0"); }
-    template <int J> std::string emplace_ilist(int k, const std::string& form, int val, int fuse, std::integral_constant<int, J>)
+    template <int A, class F> void with_source(const std::string& ak, int val, F&& f)
+    {
+        with_source_t<A>(ak, val, std::forward<F>(f), tracked_c<A>{});
+    }
+
+    // in-place constructors and emplace with several arguments: "ilist" = (initializer_list<int>, int),
+    // "multi" = (int, Mk<A>)   (tracked alternatives only)
+    template <int J> void ctor_many(int, const std::string&, const std::string&, int, int, std::false_type) { bad_script("ilist / multi on an untracked alternative"); }
+    template <int J> void ctor_many(int k, const std::string& ak, const std::string& form, int val, int fuse, std::true_type)
     {
         using TJ = typename alt_type<J>::type;
         Arm arm(fuse);
-        TJ& ref = form == "index" ? vr(k).template emplace<J>({val - 1, 7}, 1) : vr(k).template emplace<TJ>({val - 1, 7}, 1);
+        if (ak == "ilist")
+        {
+            if (form == "index") new (g_store[k].b) V(mpark::in_place_index_t<J>{}, {val - 1, 7}, 1);
+            else if (form == "type") new (g_store[k].b) V(mpark::in_place_type_t<TJ>{}, {val - 1, 7}, 1);
+            else bad_script("form");
+        }
+        else
+        {
+            if (form == "index") new (g_store[k].b) V(mpark::in_place_index_t<J>{}, 1, Mk<J>{val - 1});
+            else if (form == "type") new (g_store[k].b) V(mpark::in_place_type_t<TJ>{}, 1, Mk<J>{val - 1});
+            else bad_script("form");
+        }
+    }
+    template <int J> std::string emplace_many(int, const std::string&, const std::string&, int, int, std::false_type) { bad_script("ilist / multi on an untracked alternative"); }
+    template <int J> std::string emplace_many(int k, const std::string& ak, const std::string& form, int val, int fuse, std::true_type)
+    {
+        using TJ = typename alt_type<J>::type;
+        Arm arm(fuse);
+        if (ak == "ilist")
+        {
+            TJ& ref = form == "index" ? vr(k).template emplace<J>({val - 1, 7}, 1) : vr(k).template emplace<TJ>({val - 1, 7}, 1);
+            return refval(ref);
+        }
+        TJ& ref = form == "index" ? vr(k).template emplace<J>(1, Mk<J>{val - 1}) : vr(k).template emplace<TJ>(1, Mk<J>{val - 1});
         return refval(ref);
     }
 
-    // ------------------------------------------------------------------ visitor
+    // ------------------------------------------------------------------ visitors
     struct Rec
     {
-        std::vector<int> alts, vals, ids;
-        void rec(const int& x) { alts.push_back(0); vals.push_back(x); ids.push_back(0); }
-        template <int A, bool N> void rec(const P<A, N>& p) { alts.push_back(A); vals.push_back(val_of(p)); ids.push_back(id_at(&p)); }
+        std::vector<int> alts, vals, ids, rv;
+        const int* first = nullptr;
+        void rec(const int& x, bool r) { alts.push_back(index_of(x)); vals.push_back(x); ids.push_back(0); rv.push_back(r); if (!first) first = &x; }
+        template <int A> void rec(const Tv<A>& t, bool r) { alts.push_back(A); vals.push_back(t.v); ids.push_back(0); rv.push_back(r); if (!first) first = &t.v; }
+        template <int A, bool N> void rec(const P<A, N>& p, bool r) { alts.push_back(A); vals.push_back(val_of(p)); ids.push_back(id_at(&p)); rv.push_back(r); if (!first) first = &p.v; }
+        static int index_of(const int&) { return C05_SET == 3 ? 3 : 0; }     // the int alternative of the set
     };
+    // returns arity + sum of the alternatives' numbers
     struct Vis
     {
         Rec* r;
         template <class... X> int operator()(X&&... x) const
         {
-            int d[] = {0, (r->rec(x), 0)...};
+            int d[] = {0, (r->rec(x, !std::is_lvalue_reference<X>::value), 0)...};
             (void)d;
             int s = (int)sizeof...(X);
             for (int a : r->alts) s += a;
             return s;
         }
     };
+    // returns a reference to the first visited value
+    struct VisRef
+    {
+        Rec* r;
+        template <class X0, class... X> const int& operator()(X0&& x0, X&&... x) const
+        {
+            r->rec(x0, !std::is_lvalue_reference<X0>::value);
+            int d[] = {0, (r->rec(x, !std::is_lvalue_reference<X>::value), 0)...};
+            (void)d;
+            return int_in(x0);
+        }
+    };
 
-    template <class VT> std::string do_visit(const std::vector<long long>& ks)
+    template <class Vs, class At> int visit3(Vs& vis, At& at, std::false_type) { return xtl::visit(vis, at(0), at(1), at(2)); }
+    template <class Vs, class At> int visit3(Vs&, At&, std::true_type) { bad_script("rvalue visit: arity <= 2"); }
+    template <class VT, bool RV> VT&& pass(VT& v, std::true_type) { return std::move(v); }
+    template <class VT, bool RV> VT& pass(VT& v, std::false_type) { return v; }
+
+    template <class VT, bool RV> std::string do_visit(const std::vector<long long>& ks, bool byref)
     {
         Rec r;
-        Vis vis{&r};
+        using rv_c = std::integral_constant<bool, RV>;
+        auto at = [&](size_t i) -> decltype(auto) { return pass<VT, RV>(static_cast<VT&>(vr((int)ks[i] - 1)), rv_c{}); };
         int ret = 0;
-        auto at = [&](size_t i) -> VT& { return vr((int)ks[i] - 1); };
-        switch (ks.size())
+        bool alias = false;
+        if (byref)
         {
-            case 0: ret = xtl::visit(vis); break;
-            case 1: ret = xtl::visit(vis, at(0)); break;
-            case 2: ret = xtl::visit(vis, at(0), at(1)); break;
-            case 3: ret = xtl::visit(vis, at(0), at(1), at(2)); break;
-            default: bad_script("visit arity");
-        }
-        vj::out o;
-        o.kints("alts", r.alts).kints("vals", r.vals).kints("ids", r.ids).kv("ret", ret);
-        return ok(o.obj());
-    }
-
-    // closure-aware xget on a variant of closure wrappers (stateless probe)
-    using RV = xtl::variant<xtl::xclosure_wrapper<int&>, xtl::xclosure_wrapper<const int&>, xtl::xclosure_wrapper<double&>>;
-    using RV2 = xtl::variant<xtl::xclosure_wrapper<int&>, xtl::xclosure_wrapper<double&>>;   // no const int& closure in the list
-
-    template <class RVT> std::string xref_on(RVT& v, const std::string& want, const std::string& ref, const int* target)
-    {
-        const RVT& c = v;
-        const int* got = nullptr;
-        if (want == "ref")
-        {
-            if (ref == "l") got = &xtl::xget<int&>(v);
-            else if (ref == "cl") got = &xtl::xget<int&>(c);
-            else if (ref == "r") got = &xtl::xget<int&>(std::move(v));
-            else got = &xtl::xget<int&>(std::move(c));
+            VisRef vis{&r};
+            const int* got = nullptr;
+            switch (ks.size())
+            {
+                case 1: got = &xtl::visit(vis, at(0)); break;
+                case 2: got = &xtl::visit(vis, at(0), at(1)); break;
+                default: bad_script("reference-returning visit: arity 1 or 2");
+            }
+            alias = got == r.first;
+            ret = *got;
         }
         else
         {
-            if (ref == "l") got = &xtl::xget<const int&>(v);
-            else if (ref == "cl") got = &xtl::xget<const int&>(c);
-            else if (ref == "r") got = &xtl::xget<const int&>(std::move(v));
-            else got = &xtl::xget<const int&>(std::move(c));
+            Vis vis{&r};
+            switch (ks.size())
+            {
+                case 0: ret = xtl::visit(vis); break;
+                case 1: ret = xtl::visit(vis, at(0)); break;
+                case 2: ret = xtl::visit(vis, at(0), at(1)); break;
+                case 3: ret = visit3(vis, at, rv_c{}); break;
+                default: bad_script("visit arity");
+            }
         }
         vj::out o;
-        o.kb("alias", got == target).kv("val", *got);
+        o.kints("alts", r.alts).kints("vals", r.vals).kints("ids", r.ids).kints("rv", r.rv).kb("alias", alias).kv("ret", ret);
+        return ok(o.obj());
+    }
+
+    // closure-aware xget on variants of closure wrappers (the variant types of test_xvariant.cpp; stateless probe)
+    using RV = xtl::variant<xtl::xclosure_wrapper<int&>, xtl::xclosure_wrapper<const int&>, xtl::xclosure_wrapper<double&>>;
+    using RV2 = xtl::variant<xtl::xclosure_wrapper<int&>, xtl::xclosure_wrapper<double&>>;   // no const int& closure in the list
+    using RV4 = xtl::variant<xtl::xclosure_wrapper<const int&>, xtl::xclosure_wrapper<const double&>>;   // const closures only
+
+    int g_seen = 0;     // the value read through the reference xget returned, before the caller wrote through it
+    template <class RVT> const int* xref_cref(RVT& v, const std::string& ref)
+    {
+        const RVT& c = v;
+        if (ref == "l") return &xtl::xget<const int&>(v);
+        if (ref == "cl") return &xtl::xget<const int&>(c);
+        if (ref == "r") return &xtl::xget<const int&>(std::move(v));
+        return &xtl::xget<const int&>(std::move(c));
+    }
+    template <class RVT> const int* xref_ref(RVT& v, const std::string& ref, bool write, int newval)
+    {
+        const RVT& c = v;
+        if (write)
+        {
+            int& r = ref == "l" ? xtl::xget<int&>(v) : xtl::xget<int&>(std::move(v));
+            g_seen = r;
+            r = newval;
+            return &r;
+        }
+        if (ref == "l") return &xtl::xget<int&>(v);
+        if (ref == "cl") return &xtl::xget<int&>(c);
+        if (ref == "r") return &xtl::xget<int&>(std::move(v));
+        return &xtl::xget<int&>(std::move(c));
+    }
+    std::string xref_result(const int* got, const int* target, bool wrote, int now)
+    {
+        vj::out o;
+        o.kb("alias", got == target).kv("val", wrote ? g_seen : *got).kv("after", now);
         return ok(o.obj());
     }
 
     std::string do_xref(const vj::value& a)
     {
         int i = (int)a.num("val");
+        const int orig = i;
         double d = 0.5;
+        const double cd = 0.5;
         const std::string& held = a.str("held");
         const std::string& want = a.str("want");
         const std::string& ref = a.str("ref");
-        if (a.num("list") == 3)
+        bool write = a.num("w", 0) != 0;
+        if (write && (want != "ref" || (ref != "l" && ref != "r"))) bad_script("XRef: writing needs xget<int&> on a non-const variant");
+        const int* got = nullptr;
+        long long list = a.num("list");
+        if (list == 3)
         {
-            if (held == "ref") { RV v(xtl::closure(i)); return xref_on(v, want, ref, &i); }
-            if (held == "cref") { const int& ci = i; RV v(xtl::closure(ci)); return xref_on(v, want, ref, &i); }
-            RV v(xtl::closure(d)); return xref_on(v, want, ref, &i);
+            if (held == "ref") { RV v(xtl::closure(i)); got = want == "ref" ? xref_ref(v, ref, write, orig + 1) : xref_cref(v, ref); }
+            else if (held == "cref") { const int& ci = i; RV v(xtl::closure(ci)); got = want == "ref" ? xref_ref(v, ref, write, orig + 1) : xref_cref(v, ref); }
+            else { RV v(xtl::closure(d)); got = want == "ref" ? xref_ref(v, ref, write, orig + 1) : xref_cref(v, ref); }
         }
-        if (held == "ref") { RV2 v(xtl::closure(i)); return xref_on(v, want, ref, &i); }
-        RV2 v(xtl::closure(d)); return xref_on(v, want, ref, &i);
+        else if (list == 2)
+        {
+            if (held == "ref") { RV2 v(xtl::closure(i)); got = want == "ref" ? xref_ref(v, ref, write, orig + 1) : xref_cref(v, ref); }
+            else { RV2 v(xtl::closure(d)); got = want == "ref" ? xref_ref(v, ref, write, orig + 1) : xref_cref(v, ref); }
+        }
+        else if (list == 4)
+        {
+            if (want != "cref") bad_script("XRef: list 4 has const closures only");
+            if (held == "cref") { const int& ci = i; RV4 v(xtl::closure(ci)); got = xref_cref(v, ref); }
+            else { RV4 v(xtl::closure(cd)); got = xref_cref(v, ref); }
+        }
+        else bad_script("XRef list");
+        return xref_result(got, &i, write, i);
+    }
+
+    // monostate: relational operators, hash, and a variant<monostate, T1> default-constructs to monostate
+    std::string do_mono(const std::string& q)
+    {
+        using MV = xtl::variant<xtl::monostate, T1>;
+        xtl::monostate x, y;
+        bool b;
+        if (q == "eq") b = x == y;
+        else if (q == "ne") b = x != y;
+        else if (q == "lt") b = x < y;
+        else if (q == "gt") b = x > y;
+        else if (q == "le") b = x <= y;
+        else if (q == "ge") b = x >= y;
+        else if (q == "hash") { MV m1, m2; b = std::hash<xtl::monostate>{}(x) == std::hash<xtl::monostate>{}(y) && std::hash<MV>{}(m1) == std::hash<MV>{}(m2); }
+        else if (q == "default") { MV m; b = m.index() == 0 && xtl::holds_alternative<xtl::monostate>(m) && !m.valueless_by_exception(); }
+        else bad_script("Mono q");
+        vj::out o; o.kb("b", b);
+        return ok(o.obj());
+    }
+
+    // the visit scenarios of test_xvariant.cpp (visitor returning a variant; overloaded lambdas through xtl::make_overload)
+    std::string do_up(const std::string& t, int alt, int val)
+    {
+        using U = xtl::variant<int, double, std::string>;
+        U u = alt == 0 ? U(val) : alt == 1 ? U(val + 0.5) : U(std::string((size_t)val, 'x'));
+        int i = -1, x = -1;
+        if (t == "overload")
+        {
+            xtl::visit(xtl::make_overload([&](int arg) { i = 0; x = arg; },
+                                          [&](double arg) { i = 1; x = (int)(arg - 0.5); },
+                                          [&](const std::string& arg) { i = 2; x = (int)arg.size(); }),
+                       u);
+        }
+        else if (t == "visitret")
+        {
+            U w = xtl::visit([](auto&& arg) -> U { return arg + arg; }, u);
+            i = w.valueless_by_exception() ? -1 : (int)w.index();
+            if (const int* p = xtl::get_if<0>(&w)) x = *p;
+            else if (const double* q = xtl::get_if<1>(&w)) x = (int)*q;
+            else if (const std::string* s = xtl::get_if<2>(&w)) x = (int)s->size();
+        }
+        else bad_script("Up t");
+        vj::out o; o.kv("i", i).kv("x", x);
+        return ok(o.obj());
+    }
+
+    // a variant of variants: W = variant<int, V>
+    using W = xtl::variant<int, V>;
+    struct Inner { int ii, iv; };
+    struct InnerVis
+    {
+        template <class X> Inner operator()(const X& x) const { Rec r; r.rec(x, false); return Inner{r.alts[0], r.vals[0]}; }
+    };
+    struct OuterVis
+    {
+        Inner operator()(const int& x) const { return Inner{-1, x}; }
+        Inner operator()(const V& v) const { return v.valueless_by_exception() ? Inner{-2, 0} : xtl::visit(InnerVis{}, v); }
+    };
+    void nest_proj(vj::out& o, const char* oi, const char* ii, const char* iv, const W& w)
+    {
+        Inner in = w.valueless_by_exception() ? Inner{-3, 0} : xtl::visit(OuterVis{}, w);
+        o.kv(oi, w.valueless_by_exception() ? -1 : (long long)w.index()).kv(ii, in.ii).kv(iv, in.iv);
+    }
+    template <int A> std::string do_nest(const std::string& mode, int val, int fuse)
+    {
+        Arm arm(fuse);
+        W w1(mpark::in_place_index_t<1>{}, mpark::in_place_index_t<A>{}, make_arg<A>(val));
+        vj::out o;
+        if (mode == "copy") { W w2(static_cast<const W&>(w1)); nest_proj(o, "oi", "ii", "iv", w2); nest_proj(o, "soi", "sii", "siv", w1); }
+        else if (mode == "move") { W w2(std::move(w1)); nest_proj(o, "oi", "ii", "iv", w2); nest_proj(o, "soi", "sii", "siv", w1); }
+        else if (mode == "swap") { W w2(7); w1.swap(w2); nest_proj(o, "oi", "ii", "iv", w2); nest_proj(o, "soi", "sii", "siv", w1); }
+        else if (mode == "visit") { nest_proj(o, "oi", "ii", "iv", w1); nest_proj(o, "soi", "sii", "siv", w1); }
+        else bad_script("Nest mode");
+        g_armed = false;
+        return o.obj();
     }
 
     // ------------------------------------------------------------------ one call
@@ -349,7 +582,7 @@ namespace
             with_alt((int)a.num("alt"), [&](auto A) {
                 constexpr int I = decltype(A)::value;
                 using T = typename alt_type<I>::type;
-                if (ak == "ilist") { ctor_ilist(k, form, val, fuse, A); return 0; }
+                if (ak == "ilist" || ak == "multi") { ctor_many<I>(k, ak, form, val, fuse, tracked_c<I>{}); return 0; }
                 with_source<I>(ak, val, [&](auto&& src) {
                     using S = decltype(src);
                     Arm arm(fuse);
@@ -391,7 +624,7 @@ namespace
             with_alt((int)a.num("alt"), [&](auto A) {
                 constexpr int I = decltype(A)::value;
                 using T = typename alt_type<I>::type;
-                if (ak == "ilist") { r = emplace_ilist(k, form, val, fuse, A); return 0; }
+                if (ak == "ilist" || ak == "multi") { r = emplace_many<I>(k, ak, form, val, fuse, tracked_c<I>{}); return 0; }
                 with_source<I>(ak, val, [&](auto&& src) {
                     using S = decltype(src);
                     Arm arm(fuse);
@@ -407,25 +640,31 @@ namespace
             int k = K("k"); need(k, true);
             int val = (int)a.num("val");
             const std::string& ak = a.str("ak");
+            bool self = true;
             with_alt((int)a.num("alt"), [&](auto A) {
                 constexpr int I = decltype(A)::value;
                 with_source<I>(ak, val, [&](auto&& src) {
                     using S = decltype(src);
                     Arm arm(fuse);
                     V& r = (vr(k) = std::forward<S>(src));
-                    if (&r != &vr(k)) bad_script("operator= did not return *this");
+                    self = &r == &vr(k);
                 });
                 return 0;
             });
+            if (!self) throw Oddity{"assignment_returned_another_object"};
             return ok();
         }
         if (c == "CopyAssign" || c == "MoveAssign")
         {
             int k = K("k"), o = K("o"); need(k, true); need(o, true);
             if (c == "MoveAssign" && k == o) bad_script("precondition: self move assignment");
-            Arm arm(fuse);
-            if (c == "CopyAssign") vr(k) = static_cast<const V&>(vr(o));
-            else vr(k) = std::move(vr(o));
+            bool self;
+            {
+                Arm arm(fuse);
+                if (c == "CopyAssign") self = &(vr(k) = static_cast<const V&>(vr(o))) == &vr(k);
+                else self = &(vr(k) = std::move(vr(o))) == &vr(k);
+            }
+            if (!self) throw Oddity{"assignment_returned_another_object"};
             return ok();
         }
         if (c == "Swap")
@@ -511,13 +750,34 @@ namespace
             vj::out out; out.kb("b", b);
             return ok(out.obj());
         }
+        if (c == "Hash")
+        {
+            int k = K("k"), o = K("o"); need(k, true); need(o, true);
+            const V& x = vr(k);
+            const V& y = vr(o);
+            std::size_t hx = std::hash<V>{}(x), hy = std::hash<V>{}(y);
+            vj::out out; out.kb("same", hx == hy);
+            return ok(out.obj());
+        }
         if (c == "Visit")
         {
             auto ks = a.ints("ks");
             for (auto k : ks) { if (k < 1 || k > 2) bad_script("variant number"); need((int)k - 1, true); }
-            return a.num("c") != 0 ? do_visit<const V>(ks) : do_visit<V>(ks);
+            bool cst = a.num("c") != 0, rv = a.num("rv", 0) != 0, byref = a.num("r", 0) != 0;
+            if (rv) return cst ? do_visit<const V, true>(ks, byref) : do_visit<V, true>(ks, byref);
+            return cst ? do_visit<const V, false>(ks, byref) : do_visit<V, false>(ks, byref);
         }
         if (c == "XRef") return do_xref(a);
+        if (c == "Mono") return do_mono(a.str("q"));
+        if (c == "Up") { int alt = (int)a.num("alt"); if (alt < 0 || alt > 2) bad_script("Up alt"); return do_up(a.str("t"), alt, (int)a.num("val")); }
+        if (c == "Nest")
+        {
+            std::string r;
+            int val = (int)a.num("val");
+            const std::string& mode = a.str("mode");
+            with_alt((int)a.num("alt"), [&](auto A) { r = do_nest<decltype(A)::value>(mode, val, fuse); return 0; });
+            return ok(r);
+        }
         bad_script(("unknown call " + c).c_str());
     }
 
@@ -534,7 +794,7 @@ namespace
         if (c == "CtorDefault" || c == "CtorValue") return !P("k");
         if (c == "CtorCopy" || c == "CtorMove") return a.num("k") != a.num("o") && !P("k") && P("o");
         if (c == "Destroy" || c == "Emplace" || c == "ConvAssign" || c == "Get" || c == "XGet") return P("k");
-        if (c == "CopyAssign" || c == "Swap" || c == "Rel") return P("k") && P("o");
+        if (c == "CopyAssign" || c == "Swap" || c == "Rel" || c == "Hash") return P("k") && P("o");
         if (c == "MoveAssign") return a.num("k") != a.num("o") && P("k") && P("o");
         if (c == "GetIf") return a.num("null") != 0 || P("k");
         if (c == "Visit")
@@ -542,7 +802,7 @@ namespace
             for (auto k : a.ints("ks")) { if (k < 1 || k > 2) bad_script("variant number"); if (!g_present[k - 1]) return false; }
             return true;
         }
-        return c == "XRef";
+        return c == "XRef" || c == "Mono" || c == "Nest" || c == "Up";
     }
 
     void reset()
@@ -552,11 +812,37 @@ namespace
         g_at.clear();
         g_next_id = 0;
     }
+
+    // a call that does not return: the per-call CPU limit closes the trace with a Crash event
+    const int CALL_CPU_LIMIT_S = 5;
+    void on_cpu_limit(int)
+    {
+        std::fflush(stdout);
+        vj::crash_line("hang: per-call CPU limit exceeded");
+        _exit(0);
+    }
+    // a sanitizer report ends the process without running the signal handlers: close the trace from its death callback
+    void on_sanitizer_death()
+    {
+        std::fflush(stdout);
+        vj::crash_line("sanitizer report");
+    }
+    void arm_cpu_limit()
+    {
+        struct itimerval it;
+        it.it_interval.tv_sec = 0; it.it_interval.tv_usec = 0;
+        it.it_value.tv_sec = CALL_CPU_LIMIT_S; it.it_value.tv_usec = 0;
+        setitimer(ITIMER_VIRTUAL, &it, nullptr);
+    }
 }
 
 int main()
 {
     vj::install_crash_handlers();
+    std::signal(SIGVTALRM, on_cpu_limit);
+#ifdef C05_ASAN
+    __sanitizer_set_death_callback(on_sanitizer_death);
+#endif
     std::string line;
     while (std::getline(std::cin, line))
     {
@@ -578,10 +864,13 @@ int main()
         int fuse = (int)ev.num("fuse", 0);
         if (!callable(c, ev.at("a"))) continue;
         std::printf("%s\n", line.c_str());
+        std::fflush(stdout);      // whatever happens inside the call, the trace names the call
+        arm_cpu_limit();
         std::string res;
         try { res = perform(c, ev.at("a"), fuse); }
         catch (const Injected&) { res = exc("injected"); }
         catch (const xtl::bad_variant_access&) { res = exc("bad_variant_access"); }
+        catch (const Oddity& o) { res = exc(o.what); }
         catch (...) { res = exc("other"); }
         g_armed = false;
         std::printf("{\"op\":\"End\",\"res\":%s,\"st\":[%s,%s],\"live\":%d}\n", res.c_str(), proj(0).c_str(), proj(1).c_str(), (int)g_at.size());
